@@ -11,7 +11,7 @@ CHECKS = {
     "C01": dict(
         technique="property-based testing (Hypothesis): generated systems/variables/biases; oracle = Richardson finite differences of the engine-visible energy vs applied atomic forces",
         level="exploration",
-        text="Generated-input search (thousands of configurations per run over the component/option/bias tables) against a finite-difference oracle computed from the energy the engine receives; catches any force/energy inconsistency above ~1e-6..1e-3 relative in the explored class, establishes nothing outside it. Second part: metadynamics without grids, OPES and ABMD evaluated with their state frozen after a generated priming trajectory.",
+        text="Generated-input search (thousands of configurations per run over the component/option/bias tables) against a finite-difference oracle computed from the energy the engine receives; catches any force/energy inconsistency above ~1e-6..1e-3 relative in the explored class, establishes nothing outside it. Second part: metadynamics without grids, OPES and ABMD evaluated with their state frozen after a generated priming trajectory. Third part: analytic hills deposited on both sides of the boundary of a periodic variable. Differences at three step sizes (h, h/2, h/4) with the rounding noise of the energy measured per coordinate.",
         note="Trusts the engine simulator (checks/../engine/vproxy.cpp), finite differences (errors below ~1e-6 relative are invisible), generated geometries away from singular points (detected kinks are counted, not asserted).",
         design="DESIGN.md section 4 C01"),
     "C02": dict(
@@ -23,25 +23,25 @@ CHECKS = {
     "C04": dict(
         technique="model-based property testing (Hypothesis): Python model of the ABF estimator co-evaluated on generated value/force histories under both force-timing conventions",
         level="exploration",
-        text="Generated histories (values entering/leaving the grid, system forces, other biases, run boundaries) against an executable model: applied force at every step and the samples/gradient arrays of the saved state; exact counts, rel 1e-10 forces.",
+        text="Generated histories (values entering/leaving the grid, system forces, a second bias - harmonic or walls - with/without subtractAppliedForce, run boundaries) against an executable model: applied force at every step and the samples/gradient arrays of the saved state; exact counts, rel 1e-10 forces.",
         note="Controlled variables (z of one atom; no Jacobian term); model written from the manual and property text; eABF/CZAR/pABF not modelled.",
         design="DESIGN.md section 4 C04"),
     "C05": dict(
         technique="model-based property testing (Hypothesis): reference model of hill deposition/tabulation compared with bias energy and forces at every step",
         level="exploration",
-        text="Generated trajectories incl. excursions beyond the grid, hill schedules, well-tempered heights, grids on/off, delayed tabulation, keepHills, expandBoundaries; energy and per-variable force compared at every step (rel 1e-9; 2e-4*sum(W) outside the grid where the code truncates Gaussian tails).",
+        text="Generated trajectories incl. excursions beyond the grid, hill schedules, well-tempered heights, grids on/off, delayed tabulation, keepHills, expandBoundaries; energy and per-variable force compared at every step (rel 1e-9; 2e-4*sum(W) outside the grid where the code truncates Gaussian tails, propagated into well-tempered heights); continuation from a state with different hill widths (every hill keeps its own).",
         note="Controlled scalar variables (1-2) with grids; a 3-vector / unit-vector variable without grids (energy, and force for the 3-vector); rebinning on restart is not in this check; hill widths >= one grid spacing.",
         design="DESIGN.md section 4 C05"),
     "C06": dict(
         technique="property-based testing (Hypothesis): closed-form potentials, schedule as a function of the step number recovered from energy+force, work/TI recomputed from the trace, cut-and-restart differential",
         level="exploration",
-        text="Potentials of harmonic/walls/linear over every value type and the ABMD ratchet against the manual's closed forms; centre/force-constant schedules (continuous, staged, lambdaSchedule, decoupling, exponent) at every step; accumulated work; staged TI means; independence from run segmentation via restart at a generated step; walls on a periodic variable with the nearer wall across the boundary (energy and force).",
+        text="Potentials of harmonic/walls/linear over every value type and the ABMD ratchet against the manual's closed forms; centre/force-constant schedules (continuous, staged, lambdaSchedule, decoupling, exponent) at every step; accumulated work; staged TI means; independence from run segmentation via restart at a generated step; walls on a periodic variable with the nearer wall across the boundary (energy and force); force-constant schedules on a periodic variable (work and dA/dlambda by minimum image); stepZeroData on restraints.",
         note="Schedules exercised on a controlled scalar variable; the phase of the TI equilibration window is accepted in either of the two readings the manual allows.",
         design="DESIGN.md section 4 C06"),
     "C03": dict(
         technique="differential property testing (Hypothesis): one run of N steps vs the same run cut at a generated step K, saved (text/binary/string) and restarted in a fresh module; traces compared step by step",
         level="exploration",
-        text="Generated bias zoo (harmonic schedules, walls, ABF, metadynamics variants, OPES, ABMD, ALB, histogram, extended variables) on controlled variables; cut point, format and output frequencies generated; continuation trace (values, energies, forces, final state) compared at 1e-9; plus purity of saving and off-schedule OPES saves.",
+        text="Generated bias zoo (harmonic schedules, walls, ABF, metadynamics variants, OPES, ABMD, ALB, histogram, extended variables) on controlled variables; cut point, format and output frequencies generated; continuation trace (values, energies, forces, final state) compared at 1e-9 from the repeated first step on (evaluated once or twice, as after 'run 0'); plus purity of saving and off-schedule OPES saves.",
         note="Two listed known findings (OPES restart, metadynamics state projecting pending hills) are reported as KNOWN-FINDING; text state carries 14 digits so the comparison is at 1e-9, not bitwise.",
         design="DESIGN.md section 4 C03"),
     "C07": dict(
@@ -53,7 +53,7 @@ CHECKS = {
     "C08": dict(
         technique="differential property testing (Hypothesis): superposition (all objects together vs each alone) and multiple-time-step schedule model",
         level="exploration",
-        text="Generated sets of variables/biases: atomic forces and energy of the joint run equal the sum of single-object runs (rel 1e-10); timeStepFactor k: forces applied k-fold at multiples of k and zero otherwise, biases updated on the coarse steps only.",
+        text="Generated sets of variables/biases: atomic forces and energy of the joint run equal the sum of single-object runs (rel 1e-10); timeStepFactor k: forces applied k-fold at multiples of k and zero otherwise, biases updated on the coarse steps only; extended-Lagrangian variable with a time-step factor and walls that bypass the extended coordinate (impulse = factor x closed-form wall force).",
         note="Stateless biases for the sum part; the MTS part uses controlled variables.",
         design="DESIGN.md section 4 C08"),
     "C09": dict(
@@ -95,19 +95,19 @@ CHECKS = {
     "C20": dict(
         technique="coverage-guided fuzzing (libFuzzer, ASan+UBSan) of script command sequences with the 'result xor error' and 'module still usable' oracles inside the target; property-based testing (Hypothesis) of query/trace agreement and of script-vs-engine action equivalence",
         level="exploration",
-        text="Command sequences over the registered command table with malformed arguments interleaved with steps; every query type compared with the engine-side trace of the same step at the printed precision, atomic forces = sum of script forces x script gradients; cv config/configfile/load/loadfromstring/save/addforce/bias state commands compared with the engine or configuration path (bitwise where the arithmetic is the same); 'cv reset' + same configuration + load equals a fresh module.",
+        text="Command sequences over the registered command table with malformed arguments interleaved with steps; every query type compared with the engine-side trace of the same step at the printed precision, atomic forces = sum of script forces x script gradients; cv config/configfile/load/loadfromstring/save/addforce (scalar and 3-vector variables)/bias state commands compared with the engine or configuration path (bitwise where the arithmetic is the same); 'cv reset' + same configuration + load equals a fresh module.",
         note="Energies are printed with 6 significant digits by the interface; agreement is checked at that precision (stated assumption).",
         design="DESIGN.md section 4 C20"),
     "C15": dict(
         technique="property-based testing: Hypothesis bin model for histogram binning; rapidcheck round-trips of grid files (multicolumn, restart text/binary, raw)",
         level="exploration",
-        text="Values exactly on edges, inside, just outside and far outside; periodic and custom grids, run boundaries; counts per bin exact. Grid objects of generated shape written and re-read in 4 formats: same shape and data.",
+        text="Values exactly on edges, inside, just outside and far outside; periodic and custom grids, run boundaries; counts per bin exact. Grid objects of generated shape written and re-read in 4 formats: same shape and data. Thermodynamic-integration sample grids of a restraint (.ti.count/.ti.force) against the (value, system force) pairs under both force-timing conventions.",
         note="gatherVectorColvars cannot be configured in this code base (vector variables are rejected by the grid feature), so it is not generated.",
         design="DESIGN.md section 4 C15"),
     "C16": dict(
-        technique="property-based testing (rapidcheck, direct API): PMF integration against own divergence/Laplacian model, exactness on conservative fields, convergence",
+        technique="property-based testing: rapidcheck on the integrator's API (own divergence/Laplacian model, exactness on conservative fields, convergence); Hypothesis metamorphic test through the ABF bias (surface kept up to date sample by sample = surface of a fresh instance reading the final data)",
         level="exploration",
-        text="Generated 1-3 D gradient grids (periodic/non-periodic, with unsampled bins): integrate_potential output satisfies the discrete Poisson equation to the solver tolerance, reproduces analytic potentials of conservative fields up to a constant, 1D equals cumulative sum.",
+        text="Generated 1-3 D gradient grids (periodic/non-periodic, with unsampled bins): integrate_potential output satisfies the discrete Poisson equation to the solver tolerance, reproduces analytic potentials of conservative fields up to a constant, 1D equals cumulative sum. 2-D/3-D ABF runs with generated sample arrival orders, minSamples/fullSamples: the .pmf written by the run equals the .pmf of an instance that reads the written gradients and counts (1e-6).",
         note="Solver tolerance is the code's own (1e-6 default); weighted variants compared through the residual they define.",
         design="DESIGN.md section 4 C16", engine="rapidcheck targets (rc/)"),
     "C17": dict(
@@ -119,7 +119,7 @@ CHECKS = {
     "C19": dict(
         technique="property-based testing (Hypothesis): trajectory, running-average and correlation-function files parsed and recomputed from the step trace",
         level="exploration",
-        text="Generated output frequencies, run boundaries with repeated steps, objects added mid-run, every output flag: one line per eligible step, no duplicates, labels match columns, numbers equal the trace at 14 digits; running average/ACF (scalar and 3-vector, coordinate and coordinate_p2) equal a Python recomputation.",
+        text="Generated output frequencies, run boundaries with repeated steps, objects added mid-run, variables computed every 2nd/3rd step, every output flag: one line per eligible step, no duplicates, labels match columns, numbers equal the trace at 14 digits; running average/ACF (scalar and 3-vector, coordinate and coordinate_p2) equal a Python recomputation.",
         note="Running average of periodic variables is not compared near the seam (not defined by the property).",
         design="DESIGN.md section 4 C19"),
     "C18": dict(
